@@ -298,6 +298,15 @@ func (e *Engine) jsonUnmarshal(data, target Value) Value {
 	}
 	var tt types.Type
 	if i, isI := target.(*Iface); isI {
+		// a target with its own UnmarshalJSON decodes itself (json.Unmarshal(data, container))
+		if sel := e.prog.MethodSets.MethodSet(i.T).Lookup(nil, "UnmarshalJSON"); sel != nil {
+			if m := e.prog.MethodValue(sel); m != nil && m.Blocks != nil {
+				if e.parseRope(ropeOf(data)) == nil {
+					return jsonErr("syntax error") // the decoder validates the input before calling UnmarshalJSON
+				}
+				return e.call(m, []Value{i.V, data})
+			}
+		}
 		tt = i.T.Underlying().(*types.Pointer).Elem()
 	}
 	if tt == nil {
